@@ -117,9 +117,16 @@ def _is_fn(v):
     return isinstance(v, tuple) and len(v) == 2 and v[0] == "fn"
 
 
+def is_oneshot(v):
+    """("it", (k, ...)): the keys are handed to the real call as a one-shot iterator (Iterable[str])."""
+    return isinstance(v, tuple) and len(v) == 2 and v[0] == "it" and isinstance(v[1], tuple)
+
+
 def _aslist(v):
     if not v:
         return []
+    if is_oneshot(v):
+        return list(v[1])
     return [v] if isinstance(v, str) else list(v)
 
 
